@@ -359,11 +359,18 @@ def rule_r4(ctx):
     # the predicates are asked of the symbol of the ENCLOSING function whose sets are extended, and a
     # name is recorded as a nonlocal parameter exactly when that symbol is a parameter
     n_param_sites = 0
+    init_reach = {}
+    for leaf in ctx.tmpl.namespace_leaves()[1]:
+        init = leaf.find_method("__init__")
+        if init is not None and init.cls is leaf:
+            init_reach[leaf.name] = ctx.cg.reachable([init.fq])
     for ci, fi, call, owner, name, tests in _set_add_sites(ctx.prog, ("inner_nonlocal_names", "nonlocal_parameters")):
         attr = call.func.value.attr
         what = f"{ci.name}|{attr}|receiver"
         rr.instances += 1
-        n_param_sites += attr == "nonlocal_parameters"
+        if attr == "nonlocal_parameters":
+            # a site shared by several namespace classes (a pulled-up loop) stands for each of them
+            n_param_sites += max(1, sum(1 for fq in init_reach if fi.fq in init_reach[fq]))
         bad = None
         for t in tests:
             for c in ast.walk(t):
@@ -405,16 +412,35 @@ def rule_r4(ctx):
     # every free / nonlocal name of the scope is linked: the loop over the names is never left early
     mi = ctx.prog.modules["oneliner.namespaces"]
     n_loops = 0
+    SRC = ("get_frees", "get_nonlocals", "get_symbols", "get_identifiers")
+
+    def _adds(lp):
+        return any(isinstance(c, ast.Call) and isinstance(c.func, ast.Attribute) and c.func.attr == "add" and isinstance(c.func.value, ast.Attribute) and c.func.value.attr == "inner_nonlocal_names" for c in ast.walk(lp))
+
+    name_loops = []  # (class, function, loop over the symbol table's names, loop that links each name)
     for ci in mi.classes.values():
         for fi in ci.methods.values():
             for lp in ast.walk(fi.node):
-                if not isinstance(lp, ast.For):
+                if not isinstance(lp, ast.For) or not _adds(lp):
                     continue
                 it_txt = ast.unparse(lp.iter)
-                if not any(x in it_txt for x in ("get_frees", "get_nonlocals", "get_symbols", "get_identifiers")):
-                    continue
-                if not any(isinstance(c, ast.Call) and isinstance(c.func, ast.Attribute) and c.func.attr == "add" and isinstance(c.func.value, ast.Attribute) and c.func.value.attr == "inner_nonlocal_names" for c in ast.walk(lp)):
-                    continue
+                if any(x in it_txt for x in SRC):
+                    name_loops.append((ci, fi, lp, lp))
+                elif isinstance(lp.iter, ast.Call) and isinstance(lp.iter.func, ast.Attribute) and isinstance(lp.iter.func.value, ast.Name) and lp.iter.func.value.id == "self" and not lp.iter.args:
+                    # the names come from a generator hook that each namespace class overrides
+                    for cj in mi.classes.values():
+                        gi = cj.methods.get(lp.iter.func.attr)
+                        if gi is None or not any(isinstance(y, (ast.Yield, ast.YieldFrom)) for y in ast.walk(gi.node)):
+                            continue
+                        if ci not in cj.mro():
+                            continue
+                        for glp in ast.walk(gi.node):
+                            if isinstance(glp, ast.For) and any(x in ast.unparse(glp.iter) for x in SRC) and any(isinstance(y, ast.Yield) for y in ast.walk(glp)):
+                                name_loops.append((cj, gi, glp, lp))
+    if True:
+        if True:
+            for ci, fi, lp, link_lp in name_loops:
+                it_txt = ast.unparse(lp.iter)
                 n_loops += 1
                 rr.instances += 1
                 what = f"{ci.name}|names-loop|complete"
@@ -488,7 +514,7 @@ def rule_r4(ctx):
                         f"{fi.where()}: the loop that links free names to their owner does not pass over `__class__` unconditionally (only under an extra condition, or not at all). A function nested in a method, a generator expression in a method or a class nested in a method that mentions `super`/`__class__` has it as a free name too; no enclosing FUNCTION owns it, so the search reaches the global namespace: `list(super(B, self).m() for _ in r)` in a method stops the conversion with AssertionError",
                         where=fi.where(), what=what_c,
                     )
-                exits = own_exits(lp.body)
+                exits = own_exits(lp.body) + (own_exits(link_lp.body) if link_lp is not lp else [])
                 if exits:
                     e = exits[0]
                     rr.fail(
